@@ -36,6 +36,7 @@ const (
 	emAppendIdent                 // append(xs, <ident named name>)
 	emAssignIdent                 // <ident named name> = e   [argIs: text of e]
 	emReturnText                  // return <expr whose text is name>, …
+	emAssignIndex                 // x.<field>[k] = v (store into the map/slice field named `field`)
 )
 
 type emitSel struct {
@@ -267,6 +268,14 @@ func findEmissionsIn(fn *Func, body ast.Node, sel emitSel) []ast.Node {
 					}
 				}
 			}
+		case emAssignIndex:
+			if as, ok := n.(*ast.AssignStmt); ok {
+				for _, l := range as.Lhs {
+					if ix, ok := ast.Unparen(l).(*ast.IndexExpr); ok && lastSel(ix.X) == sel.field {
+						out = append(out, as)
+					}
+				}
+			}
 		case emAssignField:
 			if as, ok := n.(*ast.AssignStmt); ok {
 				for i, l := range as.Lhs {
@@ -313,6 +322,8 @@ const (
 	gNonNilVar                  // the variable/path named `name` is proven non-nil (P5 engine)
 	gDomCall                    // dominated by a call of function `name`
 	gVia                        // every path from the success edge of sub[0] to the emission crosses an assignment to <…>.name
+	gLastUse                    // nothing reachable after the emission reads <…>.name (the emission is the last access)
+	gParamSame                  // `name` is a parameter of the function that is never re-assigned
 )
 
 type guard struct {
@@ -344,8 +355,16 @@ func gvarNonNil(name string) guard       { return guard{kind: gNonNilVar, name: 
 func gvia(from guard, lhs string) guard  { return guard{kind: gVia, name: lhs, sub: []guard{from}} }
 func gdomcallArg(name, arg string) guard { return guard{kind: gDomCall, name: name, rhs: arg} }
 func gdomcall(name string) guard         { return guard{kind: gDomCall, name: name} }
+func glastuse(name string) guard         { return guard{kind: gLastUse, name: name} }
+func gparam(name string) guard           { return guard{kind: gParamSame, name: name} }
 
 func (g guard) String() string {
+	switch g.kind {
+	case gLastUse:
+		return "last access of ." + g.name
+	case gParamSame:
+		return "parameter " + g.name + " unchanged"
+	}
 	p := ""
 	if !g.pol {
 		p = "!"
@@ -903,6 +922,50 @@ func guardHolds(p5c *p5, fn *Func, at ast.Node, g guard) bool {
 			return true
 		})
 		return found
+	case gLastUse:
+		// no read of a selector ….name is reachable from the emission (other than the
+		// emission's own statement)
+		later := false
+		ast.Inspect(rootOf(fn).Body, func(n ast.Node) bool {
+			if later {
+				return false
+			}
+			sel, ok := n.(*ast.SelectorExpr)
+			if !ok || canonId(sel.Sel.Name) != g.name {
+				return true
+			}
+			if nodeContains(at, sel) {
+				return true
+			}
+			// a pure write `x.name = …` is not a read
+			if as, ok := fn.Prog.Parent(sel).(*ast.AssignStmt); ok {
+				for _, l := range as.Lhs {
+					if ast.Unparen(l) == ast.Expr(sel) {
+						return true
+					}
+				}
+			}
+			if fn.Prog.EnclosingFunc(sel) == fn && reachesStmt(fn, at, sel, nil) {
+				later = true
+			}
+			return true
+		})
+		return !later
+	case gParamSame:
+		root := rootOf(fn)
+		if root.Obj == nil {
+			return false
+		}
+		sig := root.Obj.Type().(*types.Signature)
+		for i := 0; i < sig.Params().Len(); i++ {
+			pv := sig.Params().At(i)
+			if pv.Name() == g.name {
+				return len(root.Assignments(pv)) == 0 && len(fn.Assignments(pv)) == 0
+			}
+		}
+		// renamed parameter: any never-assigned parameter of the same position cannot be
+		// identified; fail closed only if a variable of that name exists and is assigned
+		return !localNames(fn)[g.name]
 	case gNonNilVar:
 		// find the identifier named g.name used inside `at`
 		var target ast.Expr
@@ -1145,8 +1208,9 @@ func runRows(prop string) func(p *Prog, r *Report) {
 									}
 								}
 								txt := cmpText(fx.viewExpr(a.E))
+								txtFolded := cmpText(constFold(fx, fx.viewExpr(a.E)))
 								for _, ex := range rw.exact {
-									if sameText(fx, txt, ex) || lastSel(fx.viewExpr(a.E)) == ex {
+									if sameText(fx, txt, ex) || sameText(fx, txtFolded, ex) || lastSel(fx.viewExpr(a.E)) == ex {
 										allowed = true
 									}
 								}
